@@ -61,6 +61,10 @@ pub enum Chan {
     Err,
     FlushOut,
     FlushErr,
+    /// a directory listing was opened (hook H3); `src` = index of the simulated directory
+    ListOpen,
+    /// the next entry of a listing was asked for; `at` = position in the listing
+    ListNext,
 }
 
 #[derive(Clone, Copy, Debug, PartialEq, Eq, Hash)]
@@ -174,6 +178,24 @@ pub struct FilePlan {
     pub open_blocks: bool,
 }
 
+/// How one simulated directory is listed (hook H3). Which entries it has comes from the
+/// scenario's layout; this is the order they are listed in and what goes wrong.
+#[derive(Clone, Debug, Default, Serialize, Deserialize, PartialEq)]
+pub struct DirPlan {
+    /// the listing yields the directory's entries in this order (indices into the layout's
+    /// entry list; indices that are missing are appended in layout order)
+    #[serde(default)]
+    pub order: Vec<usize>,
+    /// opening the listing fails
+    #[serde(default, skip_serializing_if = "Option::is_none")]
+    pub open_fails: Option<ErrKind>,
+    /// asking for the entry at this position of the listing fails (`at` = number of entries:
+    /// the call that would have reported the end of the listing fails instead). Sticky: every
+    /// later call fails too; otherwise the listing goes on with the entry at that position.
+    #[serde(default, skip_serializing_if = "Option::is_none")]
+    pub entry_fault: Option<Fault>,
+}
+
 pub const POST_FAULT_CALLS: u32 = 64;
 
 pub struct SimAbort(pub String);
@@ -200,6 +222,18 @@ struct SourceState {
     open_blocks: bool,
 }
 
+struct DirState {
+    path: String,
+    /// full paths, in listing order
+    entries: Vec<String>,
+    open_fails: Option<ErrKind>,
+    fault: Option<Fault>,
+    fault_delivered: bool,
+    post_fault_calls: u32,
+    opened: u32,
+    yielded: u32,
+}
+
 struct SinkState {
     data: Vec<u8>,
     plan: SinkPlan,
@@ -222,6 +256,7 @@ pub struct World {
     opened: u32,
     /// index 0 = stdin, i + 1 = i-th simulated file
     srcs: Vec<SourceState>,
+    dirs: Vec<DirState>,
     cur_src: u8,
     /// a fatal read failure was delivered on some source
     any_rfault: bool,
@@ -246,7 +281,7 @@ impl World {
         }
         self.log.push(Event {
             seq: self.seq,
-            src: if matches!(chan, Chan::Read | Chan::Open) { self.cur_src } else { 0 },
+            src: if matches!(chan, Chan::Read | Chan::Open | Chan::ListOpen | Chan::ListNext) { self.cur_src } else { 0 },
             chan,
             at: at as u32,
             asked: asked as u32,
@@ -647,7 +682,16 @@ pub struct FileSrc {
     pub byte_budget: usize,
 }
 
+pub struct DirSrc {
+    pub path: String,
+    /// full paths of the entries, already in listing order
+    pub entries: Vec<String>,
+    pub open_fails: Option<ErrKind>,
+    pub entry_fault: Option<Fault>,
+}
+
 pub struct WorldSpec {
+    pub dirs: Vec<DirSrc>,
     pub input: Vec<u8>,
     pub delivery: Delivery,
     pub rfault: Option<Fault>,
@@ -739,6 +783,20 @@ pub fn new_world(spec: WorldSpec) -> Shared {
         delivered: 0,
         opened: 0,
         srcs,
+        dirs: spec
+            .dirs
+            .into_iter()
+            .map(|d| DirState {
+                path: d.path,
+                entries: d.entries,
+                open_fails: d.open_fails,
+                fault: d.entry_fault,
+                fault_delivered: false,
+                post_fault_calls: 0,
+                opened: 0,
+                yielded: 0,
+            })
+            .collect(),
         cur_src: 0,
         any_rfault: false,
         ok_reads_after_any_rfault: 0,
@@ -809,6 +867,87 @@ pub fn open_file(w: &Shared, i: usize) -> io::Result<SimSource> {
     Ok(SimSource { w: w.clone(), which })
 }
 
+/// The listing of a simulated directory (hook H3): one seam event per entry asked for.
+pub struct SimListing {
+    w: Shared,
+    which: usize,
+    pos: usize,
+}
+
+/// Index of the simulated directory with this path, if the scenario has one.
+pub fn find_dir(w: &Shared, path: &std::path::Path) -> Option<usize> {
+    let g = lock(w);
+    g.dirs.iter().position(|d| std::path::Path::new(&d.path) == path)
+}
+
+pub fn open_dir(w: &Shared, i: usize) -> io::Result<SimListing> {
+    let mut g = lock(w);
+    if g.aborted.is_some() {
+        return Err(io::Error::new(io::ErrorKind::Other, "sim-aborted"));
+    }
+    g.cur_src = i as u8;
+    g.dirs[i].opened += 1;
+    if g.any_rfault {
+        g.opens_after_any_rfault += 1;
+    }
+    if let Some(k) = g.dirs[i].open_fails {
+        g.dirs[i].fault_delivered = true;
+        g.any_rfault = true;
+        if let Err(e) = g.push(Chan::ListOpen, 0, 0, Res::Fail(k)) {
+            return Err(abort(w, g, e));
+        }
+        return Err(k.to_io());
+    }
+    if let Err(e) = g.push(Chan::ListOpen, 0, 0, Res::Done) {
+        return Err(abort(w, g, e));
+    }
+    drop(g);
+    Ok(SimListing { w: w.clone(), which: i, pos: 0 })
+}
+
+impl Iterator for SimListing {
+    type Item = io::Result<std::path::PathBuf>;
+    fn next(&mut self) -> Option<Self::Item> {
+        let mut g = lock(&self.w);
+        if g.aborted.is_some() {
+            return Some(Err(io::Error::new(io::ErrorKind::Other, "sim-aborted")));
+        }
+        let i = self.which;
+        g.cur_src = i as u8;
+        let pos = self.pos;
+        if let Some(f) = g.dirs[i].fault.clone() {
+            let fire = if g.dirs[i].fault_delivered { f.sticky } else { f.at == pos };
+            if fire {
+                if g.dirs[i].fault_delivered {
+                    g.dirs[i].post_fault_calls += 1;
+                    if g.dirs[i].post_fault_calls > POST_FAULT_CALLS {
+                        return Some(Err(abort(&self.w, g, "directory listing retried more than 64 times after a failure".into())));
+                    }
+                }
+                g.dirs[i].fault_delivered = true;
+                g.any_rfault = true;
+                if let Err(e) = g.push(Chan::ListNext, pos, 1, Res::Fail(f.kind)) {
+                    return Some(Err(abort(&self.w, g, e)));
+                }
+                return Some(Err(f.kind.to_io()));
+            }
+        }
+        if pos >= g.dirs[i].entries.len() {
+            if let Err(e) = g.push(Chan::ListNext, pos, 1, Res::Eof) {
+                return Some(Err(abort(&self.w, g, e)));
+            }
+            return None;
+        }
+        let p = g.dirs[i].entries[pos].clone();
+        g.dirs[i].yielded += 1;
+        self.pos += 1;
+        if let Err(e) = g.push(Chan::ListNext, pos, 1, Res::Done) {
+            return Some(Err(abort(&self.w, g, e)));
+        }
+        Some(Ok(std::path::PathBuf::from(p)))
+    }
+}
+
 pub fn sinks(w: &Shared) -> (SimSink, SimSink) {
     (
         SimSink {
@@ -853,6 +992,16 @@ pub struct Obs {
     pub any_rfault: bool,
     pub ok_reads_after_any_rfault: u32,
     pub opens_after_any_rfault: u32,
+    /// simulated directories (hook H3)
+    pub dirs: Vec<DirObs>,
+}
+
+#[derive(Clone, Debug, Default)]
+pub struct DirObs {
+    pub opened: u32,
+    pub yielded: u32,
+    pub fault_delivered: bool,
+    pub post_fault_calls: u32,
 }
 
 #[derive(Clone, Debug, Default)]
@@ -908,5 +1057,15 @@ pub fn observe(w: &Shared) -> Obs {
         any_rfault: g.any_rfault,
         ok_reads_after_any_rfault: g.ok_reads_after_any_rfault,
         opens_after_any_rfault: g.opens_after_any_rfault,
+        dirs: g
+            .dirs
+            .iter()
+            .map(|d| DirObs {
+                opened: d.opened,
+                yielded: d.yielded,
+                fault_delivered: d.fault_delivered,
+                post_fault_calls: d.post_fault_calls,
+            })
+            .collect(),
     }
 }
